@@ -23,7 +23,7 @@ type instrStats struct {
 // `X.RLock()` is preceded (on the same line, so line numbers are preserved) by
 // a verifsim.BeforeLock call carrying a TryLock probe, and every statement
 // matching one of the extra regexps is preceded by verifsim.Yield.
-func instrumentFile(path, rel string, src []byte, exclude map[string]bool, extra []*regexp.Regexp, st *instrStats) ([]byte, error) {
+func instrumentFile(path, rel string, src []byte, exclude map[string]bool, extra []*regexp.Regexp, afterUnlock bool, st *instrStats) ([]byte, error) {
 	fset := token.NewFileSet()
 	f, err := parser.ParseFile(fset, path, src, parser.ParseComments)
 	if err != nil {
@@ -55,6 +55,20 @@ func instrumentFile(path, rel string, src []byte, exclude map[string]bool, extra
 						inserts = append(inserts, ins{pos.Offset, text})
 						st.Locks++
 						continue
+					}
+				}
+			}
+			// optional: a scheduling point right after every explicit (non-deferred) X.Unlock()/X.RUnlock() statement, so that
+			// another actor can run between the release of a lock and the statements that follow it
+			if afterUnlock {
+				if es, ok := s.(*ast.ExprStmt); ok {
+					if call, ok := es.X.(*ast.CallExpr); ok && len(call.Args) == 0 {
+						if sel, ok := call.Fun.(*ast.SelectorExpr); ok && (sel.Sel.Name == "Unlock" || sel.Sel.Name == "RUnlock") && !exclude[site] {
+							end := fset.Position(s.End()).Offset
+							inserts = append(inserts, ins{end, fmt.Sprintf("; verifsim.Yield(%q)", "after-unlock@"+site)})
+							st.Yields++
+							continue
+						}
 					}
 				}
 			}
@@ -107,7 +121,7 @@ func instrumentFile(path, rel string, src []byte, exclude map[string]bool, extra
 	return []byte(out.String()), nil
 }
 
-func instrumentAll(repo, outDir string, globs []string, excludeSites []string, extraRe []string, resolve func(string) string, overlay map[string]string) (*instrStats, error) {
+func instrumentAll(repo, outDir string, globs []string, excludeSites []string, extraRe []string, afterUnlock bool, resolve func(string) string, overlay map[string]string) (*instrStats, error) {
 	st := &instrStats{}
 	excl := map[string]bool{}
 	for _, s := range excludeSites {
@@ -141,7 +155,7 @@ func instrumentAll(repo, outDir string, globs []string, excludeSites []string, e
 			if err != nil {
 				return nil, err
 			}
-			out, err := instrumentFile(m, rel, src, excl, res, st)
+			out, err := instrumentFile(m, rel, src, excl, res, afterUnlock, st)
 			if err != nil {
 				return nil, fmt.Errorf("instrument %s: %v", rel, err)
 			}
